@@ -75,6 +75,7 @@ func (w *world) unsafe(p params) {
 	w.lending(p.NBorrows)
 	w.vaults(p.NVaults)
 	w.mustBlock(6 * time.Second)
+	w.mustBlock(26 * time.Hour) // stability fee and borrow interest accrue: a liquidation step writes them first
 	w.dropPrices(p)
 }
 
